@@ -1,3 +1,4 @@
+mod checks_pure;
 mod checks_t;
 mod explore;
 mod report;
@@ -17,6 +18,7 @@ fn main() {
         let v: serde_json::Value = serde_json::from_str(&std::fs::read_to_string(path).unwrap()).unwrap();
         let code = match v["replay"]["history"]["engine"].as_str() {
             Some("T") => tmodel::replay(&v),
+            Some("X") => checks_pure::c19_replay(&v),
             _ => {
                 eprintln!("no replayer for this file");
                 2
@@ -33,6 +35,9 @@ fn main() {
         "C07" => checks_t::c07(a.tier),
         "C08" => checks_t::c08(a.tier),
         "C09" => checks_t::c09(a.tier),
+        "C17" => checks_pure::c17(a.tier),
+        "C19" => checks_pure::c19(a.tier),
+        "C20" => checks_pure::c20(a.tier),
         _ => {
             eprintln!("usage: verif <C01..C20|selftest|smoke> [--tier quick|thorough] [--replay file]");
             let _ = a;
